@@ -167,6 +167,37 @@ def buildCluster (sc : StoredCluster) : LiveCluster := ⟨sc.tag, dedup (sc.host
 /-- load balancers read weights through `fixHostWeight` (same bounds): live clusters are compared after the clamp. -/
 def normalize (lc : LiveCluster) : LiveCluster := ⟨lc.tag, lc.hosts.map clampHost⟩
 
+/-! ## listeners (`pkg/server/handler.go`, `pkg/server/adapter.go`) -/
+
+/-- the part of `v2.Listener` the update paths distinguish -/
+structure ListenerCfg where
+  name : String
+  addr : String
+  chains : Nat          -- number of filter chains (exactly one is accepted)
+  sf : List String      -- stream filters
+  nf : Nat              -- network filters of the filter chain
+  idle : Nat            -- connection idle timeout (0 = unset)
+  keep : Nat            -- stands for the fields an update does not copy (default_read_buffer_size, access logs, bind_port …)
+  tlsOk : Bool          -- `NewTLSServerContextManager` succeeds on its TLS contexts
+  deriving DecidableEq, Repr
+
+/-- `activeListener` + what the stream-filter manager holds for it: what new connections are served with -/
+structure LiveListener where
+  cfg : ListenerCfg     -- `al.listener.Config()` (rawConfig)
+  sf : List String      -- stream-filter manager entry of the listener
+  nf : Nat              -- `al.networkFiltersFactories`
+  idle : Nat            -- `al.idleTimeout`
+  deriving DecidableEq, Repr
+
+/-- the name a listener is registered under: `lc.Name`, or the address when the name is empty -/
+def effName (lc : ListenerCfg) : String := if lc.name.isEmpty then lc.addr else lc.name
+
+/-- a fresh start adds the stored listener to an empty handler (`AddOrUpdateListener`, add path); `none` = refused -/
+def buildListener (c : ListenerCfg) : Option LiveListener :=
+  if c.chains ≠ 1 then none
+  else if !c.tlsOk then none
+  else some ⟨{ c with name := effName c }, c.sf, c.nf, c.idle⟩
+
 /-! ## state -/
 
 structure State where
@@ -174,8 +205,10 @@ structure State where
   rstore : FMap RouterCfg        -- configmanager conf.Routers
   clusters : FMap LiveCluster    -- clusterManager.clustersMap (published snapshot)
   cstore : FMap StoredCluster    -- configmanager conf.Cluster
+  listeners : FMap LiveListener  -- connHandler.listeners (by name) + stream-filter manager
+  lstore : FMap ListenerCfg      -- configmanager conf.Listener
 
-def init : State := ⟨FMap.empty, FMap.empty, FMap.empty, FMap.empty⟩
+def init : State := ⟨FMap.empty, FMap.empty, FMap.empty, FMap.empty, FMap.empty, FMap.empty⟩
 
 /-- an xDS endpoint: address and optional load-balancing weight -/
 structure XHost where
@@ -202,6 +235,8 @@ inductive Op
   | removeHosts (name : String) (addrs : List String)
   | removeClusters (names : List String)
   | xdsEndpoints (assignments : List (String × List (List XHost)))
+  | addOrUpdateListener (lc : ListenerCfg)                                  -- ListenerAdapter.AddOrUpdateListener
+  | deleteListener (name : String)                                          -- ListenerAdapter.DeleteListener
   deriving Repr
 
 /-! ### effective-config store -/
@@ -270,6 +305,42 @@ def xdsAssign (s : State) (cname : String) (locs : List (List XHost)) : State ×
       (r2.1, r1.2 && r2.2)
     else r1
 
+/-! ### listeners -/
+
+/-- `configmanager.SetListenerConfig` -/
+def recordListener (s : State) (cfg : ListenerCfg) : State :=
+  if Gen.Updates.addOrUpdateListener_recordsListenerConfig then { s with lstore := s.lstore.set cfg.name cfg } else s
+
+/-- `connHandler.AddOrUpdateListener` through the adapter. The update branch follows the regenerated facts: whether a rejected
+update is rejected before anything is changed, and whether the new idle timeout reaches the live listener / its config. -/
+def addOrUpdateListener (s : State) (lc0 : ListenerCfg) : State × Bool :=
+  let name := effName lc0
+  let lc := { lc0 with name := name }
+  if lc.chains ≠ 1 then (s, false)
+  else
+    match s.listeners name with
+    | some al =>
+      if al.cfg.addr ≠ lc.addr || !lc.tlsOk then
+        if Gen.Updates.updateListener_lateErrorReturns = 0 then (s, false)
+        else ({ s with listeners := s.listeners.set name { al with sf := lc.sf } }, false)  -- factories already replaced
+      else
+        let cfg' := { al.cfg with sf := lc.sf, nf := lc.nf, tlsOk := lc.tlsOk,
+                                  idle := if Gen.Updates.updateListener_idleConfig then lc.idle else al.cfg.idle }
+        let al' : LiveListener := ⟨cfg', lc.sf, lc.nf, if Gen.Updates.updateListener_idleLive then lc.idle else al.idle⟩
+        (recordListener { s with listeners := s.listeners.set name al' } cfg', true)
+    | none =>
+      -- add path: `newActiveListener` fails on a bad tls context (the registrations left behind serve no listener)
+      if !lc.tlsOk then (s, false)
+      else (recordListener { s with listeners := s.listeners.set name ⟨lc, lc.sf, lc.nf, lc.idle⟩ } lc, true)
+
+/-- `ListenerAdapter.DeleteListener`: graceful close + `RemoveListeners`; no error for an unknown name -/
+def deleteListener (s : State) (name : String) : State × Bool :=
+  match s.listeners name with
+  | none => (s, true)
+  | some _ =>
+    ({ s with listeners := s.listeners.del name,
+              lstore := if Gen.Updates.removeListeners_removesListenerConfig then s.lstore.del name else s.lstore }, true)
+
 /-! ### one operation -/
 
 def recordsAddOrUpdate : Bool :=
@@ -326,6 +397,8 @@ def step (o : Oracle) (s : State) : Op → State × Bool
     assignments.foldl (fun (acc : State × Bool) a =>
       let r := xdsAssign acc.1 a.1 a.2
       (r.1, acc.2 && r.2)) (s, true)
+  | .addOrUpdateListener lc => addOrUpdateListener s lc
+  | .deleteListener name => deleteListener s name
 
 /-- state after a history -/
 def run (o : Oracle) (ops : List Op) : State := ops.foldl (fun s op => (step o s op).1) init
@@ -344,12 +417,15 @@ def results (o : Oracle) : State → List Op → List Bool
 structure Dump where
   routers : FMap RouterCfg
   clusters : FMap StoredCluster
+  listeners : FMap ListenerCfg
 
-def dump (s : State) : Dump := ⟨s.rstore, s.cstore⟩
+def dump (s : State) : Dump := ⟨s.rstore, s.cstore, s.lstore⟩
 
 /-- live route tables of a fresh start from a dump (`none` = no such router, `some none` = router without tables) -/
 def rebuildRouters (o : Oracle) (d : Dump) : FMap (Option Table) := fun n => (d.routers n).map (build o)
 def rebuildClusters (d : Dump) : FMap LiveCluster := fun n => (d.clusters n).map buildCluster
+
+def rebuildListeners (d : Dump) : FMap LiveListener := fun n => (d.listeners n).bind buildListener
 
 def liveRouters (s : State) : FMap (Option Table) := fun n => (s.wrappers n).map (·.routers)
 def liveClusters (s : State) : FMap LiveCluster := fun n => (s.clusters n).map normalize
